@@ -1,0 +1,25 @@
+// This Source Code Form is subject to the terms of the Mozilla Public
+// License, v. 2.0. If a copy of the MPL was not distributed with this
+// file, You can obtain one at http://mozilla.org/MPL/2.0/.
+
+//go:build verif
+
+// Package verifhook re-exports the internal reconcile queue for external verification harnesses.
+//
+// It is compiled only with the 'verif' build tag and contains aliases and forwarding functions only.
+package verifhook
+
+import (
+	"github.com/cosi-project/runtime/pkg/controller/runtime/internal/qruntime/internal/queue"
+)
+
+// Queue is the internal reconcile queue.
+type Queue[K comparable, V any] = queue.Queue[K, V]
+
+// Item is an item handed out by the queue.
+type Item[K comparable, V any] = queue.Item[K, V]
+
+// NewQueue creates a new queue.
+func NewQueue[K comparable, V any]() *Queue[K, V] {
+	return queue.NewQueue[K, V]()
+}
